@@ -201,6 +201,11 @@ def compare(ctx, rule, instance, where, code, ref_poly, ref_dims=None, facts=Non
             if not any(o.rule == 'DTYPE' and o.instance == inst for o in ctx.obs):
                 ctx.violation('DTYPE', inst, '%s:%d %s' % (f.module, f.line, where.split(' ', 1)[-1]), f.msg, 'dtype:' + f.msg[:80])
             return False
+        if f.kind == 'zero-times-inf':
+            inst = instance + ' (IEEE arithmetic)'
+            if not any(o.rule == rule and o.instance == inst for o in ctx.obs):
+                ctx.violation(rule, inst, '%s:%d %s' % (f.module, f.line, where.split(' ', 1)[-1]), f.msg, 'zero-times-inf:' + f.msg[:60])
+            return False
         if f.kind == 'label-clash':
             ctx.violation('AXIS', instance + ' (axis roles)', '%s:%d %s' % (f.module, f.line, where.split(' ', 1)[-1]),
                           'arrays indexed by different axes are combined: %s' % f.msg, 'label-clash:' + f.msg[:80])
